@@ -82,6 +82,21 @@ def mask_where(self, mask, replace=None, remask=True, recursive=True):
     return obj
 
 #===============================================================================
+def _visible(self, mask, remask):
+    """The mask derived from a comparison of the values, for the mask_where_xx
+    methods. With remask=False the selected items are replaced and left
+    unmasked, so the items that are masked already must not take part: the
+    numbers stored underneath a mask have no meaning, and an item would become
+    unmasked or not depending on them. With remask=True they stay masked either
+    way (and are replaced, which keeps guards such as sqrt() quiet).
+    """
+
+    if remask:
+        return mask
+
+    return Qube.and_(mask, self.antimask)
+
+#===============================================================================
 def mask_where_eq(self, match, replace=None, remask=True):
     """A copy of this object with items equal to a value masked.
 
@@ -105,7 +120,8 @@ def mask_where_eq(self, match, replace=None, remask=True):
     axes = tuple(range(-self._rank_, 0))
     mask = np.all(self._values_ == match._values_, axis=axes)
 
-    return self.mask_where(mask, replace=replace, remask=remask)
+    return self.mask_where(_visible(self, mask, remask), replace=replace,
+                           remask=remask)
 
 #===============================================================================
 def mask_where_ne(self, match, replace=None, remask=True):
@@ -130,7 +146,8 @@ def mask_where_ne(self, match, replace=None, remask=True):
     axes = tuple(range(-self._rank_, 0))
     mask = np.all(self._values_ != match._values_, axis=axes)
 
-    return self.mask_where(mask, replace=replace, remask=remask)
+    return self.mask_where(_visible(self, mask, remask), replace=replace,
+                           remask=remask)
 
 #===============================================================================
 def mask_where_le(self, limit, replace=None, remask=True):
@@ -159,8 +176,8 @@ def mask_where_le(self, limit, replace=None, remask=True):
     if isinstance(limit, Qube):
         limit = limit._values_
 
-    return self.mask_where(self._values_ <= limit, replace=replace,
-                                                   remask=remask)
+    return self.mask_where(_visible(self, self._values_ <= limit, remask),
+                           replace=replace, remask=remask)
 
 #===============================================================================
 def mask_where_ge(self, limit, replace=None, remask=True):
@@ -189,8 +206,8 @@ def mask_where_ge(self, limit, replace=None, remask=True):
     if isinstance(limit, Qube):
         limit = limit._values_
 
-    return self.mask_where(self._values_ >= limit, replace=replace,
-                                                   remask=remask)
+    return self.mask_where(_visible(self, self._values_ >= limit, remask),
+                           replace=replace, remask=remask)
 
 #===============================================================================
 def mask_where_lt(self, limit, replace=None, remask=True):
@@ -220,8 +237,8 @@ def mask_where_lt(self, limit, replace=None, remask=True):
     if isinstance(limit, Qube):
         limit = limit._values_
 
-    return self.mask_where(self._values_ < limit, replace=replace,
-                                                  remask=remask)
+    return self.mask_where(_visible(self, self._values_ < limit, remask),
+                           replace=replace, remask=remask)
 
 #===============================================================================
 def mask_where_gt(self, limit, replace=None, remask=True):
@@ -250,8 +267,8 @@ def mask_where_gt(self, limit, replace=None, remask=True):
     if isinstance(limit, Qube):
         limit = limit._values_
 
-    return self.mask_where(self._values_ > limit, replace=replace,
-                                                  remask=remask)
+    return self.mask_where(_visible(self, self._values_ > limit, remask),
+                           replace=replace, remask=remask)
 
 #===============================================================================
 def mask_where_between(self, lower, upper, mask_endpoints=False,
@@ -305,7 +322,8 @@ def mask_where_between(self, lower, upper, mask_endpoints=False,
 
     mask = op0(lower) & op1(upper)
 
-    return self.mask_where(mask, replace=replace, remask=remask)
+    return self.mask_where(_visible(self, mask, remask), replace=replace,
+                           remask=remask)
 
 #===============================================================================
 def mask_where_outside(self, lower, upper, mask_endpoints=False, replace=None,
@@ -359,7 +377,8 @@ def mask_where_outside(self, lower, upper, mask_endpoints=False, replace=None,
 
     mask = op0(lower) | op1(upper)
 
-    return self.mask_where(mask, replace=replace, remask=remask)
+    return self.mask_where(_visible(self, mask, remask), replace=replace,
+                           remask=remask)
 
 #===============================================================================
 def clip(self, lower, upper, remask=True, inclusive=True):
@@ -417,16 +436,15 @@ def clip(self, lower, upper, remask=True, inclusive=True):
     result = self
 
     if lower is not None:
-        result = result.mask_where(result._values_ < lower, replace=lower,
-                                                            remask=remask)
+        mask = _visible(result, result._values_ < lower, remask)
+        result = result.mask_where(mask, replace=lower, remask=remask)
 
     if upper is not None:
         if inclusive:
-            result = result.mask_where(result._values_ > upper, replace=upper,
-                                                                remask=remask)
+            mask = _visible(result, result._values_ > upper, remask)
         else:
-            result = result.mask_where(result._values_ >= upper, replace=upper,
-                                                                 remask=remask)
+            mask = _visible(result, result._values_ >= upper, remask)
+        result = result.mask_where(mask, replace=upper, remask=remask)
 
     return result
 
